@@ -1345,3 +1345,5 @@ PROP = Prop(
               "instrumented mappers (single calls and histories)",
     design_ref="DESIGN.md §4 C04",
 )
+
+PROP.level_note += ' Oracle streams added in the sixth seeded round: dispatch-handler-errors (an exception raised by a handler leaves the mapper call as the same object and no other handler or hook runs; nine exception kinds x hierarchies x entry points).'
